@@ -72,7 +72,7 @@ Fractal(kind, dim, level) ==
     IN  Mk([k \in 1..dim |-> n], Ones(dim), LAMBDA P, Z :
             CI(Prod([l \in 1..level |-> SeedVal(kind, [k \in 1..dim |-> Digit(P[k], l, level)])])))
 \* RGB fractal: value[I, J, c] = PROD_l M_c[i_l][j_l]   (n x n integer matrices M_c)
-RgbMat(seed, c, n) == [i \in 1..n |-> [j \in 1..n |-> ((seed * 7 + c * 5 + i * 3 + j * 11 + i * j) % 3)]]
+RgbMat(seed, c, n) == [i \in 1..n |-> [j \in 1..n |-> (((seed + SaltValue) * 7 + c * 5 + i * 3 + j * 11 + i * j) % 3)]]
 DigitN(p, l, level, n) == (p \div (n ^ (level - l))) % n
 Rgb(seed, n, level) ==
     Mk(<<n ^ level, n ^ level, 3>>, <<1, 1, 1>>, LAMBDA P, Z :
@@ -93,7 +93,7 @@ CoClassGen(order, cyclic, cls) ==
               [b \in 1..(IF cyclic THEN order ELSE order - 1) |-> CoTwo(cls)])
 
 \* ---- configurations
-PtsH(a, b, c) == ((a * 13 + b * 7 + c * 5 + a * b) % 7) - 3
+PtsH(a0, b, c) == LET a == a0 + SaltValue IN ((a * 13 + b * 7 + c * 5 + a * b) % 7) - 3
 Configs ==
     {[model |-> "ising", d |-> d, J |-> J, h |-> h] : d \in 2..(IF Level = 1 THEN 4 ELSE 6), J \in {1, -2}, h \in {0, 3}}
     \cup {[model |-> "exciton", n |-> n, alpha |-> a, beta |-> b] : n \in 2..(IF Level = 1 THEN 4 ELSE 5), a \in {1, 3}, b \in {-1, 2}}
